@@ -56,6 +56,8 @@ DEFAULT_PROFILE = {
     "flat": False,                 # C18: only int/bits/data, no modifiers
     "p_backward_at": 0.25,
     "p_describe": 0.0,             # length = Int(n).describe(AutoLength(next)); next = Data(length)
+    "p_share_table": 0.3,          # a second selector of a declaration re-uses the options table object of an earlier one
+    "p_proto_kept": 0.3,           # the prototype instance of a Ref is kept in a variable and modified after the class statement
     "p_backrun": 0.0,              # idiom: fields placed high first, then a run of plain fixed fields placed back at the start
 }
 
@@ -80,6 +82,7 @@ class Gen:
         self.decls = {}
         self.order = []
         self.counter = 0
+        self._decl_fields = []     # stack of the field lists of the declarations being generated
 
     # ------------------------------------------------------------------ expressions
     def dyn_int(self, ints, role, allow_const=True):
@@ -233,11 +236,29 @@ class Gen:
                     lo, hi = int_range(sf["n"], sf["signed"])
                     inst[sf["name"]] = rng.choice([1, 5, hi])
             f["inst"] = inst
+            if rng.random() < self.p["p_proto_kept"]:
+                # the user keeps the prototype object and changes it after the class statement: the class
+                # holds the prototype as it was when declared
+                mut = {}
+                for sf in sub["fields"]:
+                    if sf["t"] == "int" and not any(k in sf for k in ("rep", "opt", "describe")) and rng.random() < 0.6:
+                        mut[sf["name"]] = rng.choice([0, 3, 6])
+                if mut:
+                    f["inst_mut"] = mut
         return f
 
     def gen_sel(self, name, ints, depth):
         rng = self.rng
         key = rng.choice(ints)
+        earlier = [g for g in (self._decl_fields[-1] if self._decl_fields else []) if g["t"] == "sel"]
+        if earlier and rng.random() < self.p["p_share_table"]:
+            # one options table (the same dict, hence the same literal field objects) used by two selectors
+            g = rng.choice(earlier)
+            share = g.setdefault("share", "T%s" % g["name"])
+            keys = [int(k) for k in g["options"]]
+            self.hint(key, "keys", keys + [rng.choice([5, 6])])
+            return {"name": name, "t": "sel", "key": key["name"], "options": copy.deepcopy(g["options"]),
+                    "form": rng.choice(["chooses", "chooses", "lambda"]), "default_key": g["default_key"], "share": share}
         nopt = rng.randint(2, 3)
         keys = rng.sample([0, 1, 2, 3, 4, 9], nopt)
         options = {}
@@ -359,6 +380,7 @@ class Gen:
             opts["align"] = rng.choice([2, 4])
         decl = {"name": name, "opts": opts, "fields": []}
         self.decls[name] = decl   # reserve (children are created while generating fields)
+        self._decl_fields.append(decl["fields"])
         nfields = rng.randint(1, self.p["max_fields"])
         fields = decl["fields"]
         pos_lb = 0   # static lower bound of the cursor relative to the packet start
@@ -456,7 +478,7 @@ class Gen:
                 if rng.random() < self.p["p_default"] * 0.8:
                     # a declared default for the optional field (held by default-constructed packets)
                     if f["t"] == "int":
-                        f["opt"]["default"] = rng.choice([0, 1, 5])
+                        f["opt"]["default"] = rng.choice([0, 1, 5] if f["n"] == 1 else [0, 1, 5, 258])
                     elif f["t"] == "data" and f["mode"] == "const":
                         f["opt"]["default"] = bytes(rng.choice(b"opq\x00") for _ in range(f["size"]))
                     elif f["t"] == "data" and f["mode"] in ("dyn", "marker"):
@@ -468,6 +490,7 @@ class Gen:
                 pos_lb += f["n"]
             elif f["t"] == "data" and plain(f) and f["mode"] == "const":
                 pos_lb += f["size"]
+        self._decl_fields.pop()
         self.order.append(name)
         return decl
 
